@@ -387,6 +387,8 @@ func (vc *VC) strLit(s string) Term {
 		for i := 0; i < len(s); i++ {
 			vc.fact(Eq(sx("sat", t, IntLit(int64(i))), IntLit(int64(s[i]))))
 		}
+	} else {
+		vc.fact(Eq(sx("sat", t, "0"), IntLit(int64(s[0]))))
 	}
 	if strings.ToLower(s) == s {
 		vc.fact(sx("folded", t))
